@@ -91,6 +91,8 @@ def check_text(t, res, fam, full=True):
         res.violation('C05|selfdecode|%s|%s' % (kind, fam),
                       'decompress_code(compress_code(t)) = %r..., t = %r...(len %d vs %d)' % (
                           code[-30:], t[-30:], len(code), len(t)), case)
+    if full and b'\x00' in t and len(stream) >= len(t):
+        full = False        # NUL cannot be stored in the NUL-terminated raw form: only the :c: form is in the domain
     if full:
         # the code-area writer/reader used by the .p8.png formatter
         try:
@@ -214,7 +216,7 @@ def truncation_texts():
 
 # ---------------------------------------------------------------- decoder BFS
 LITS = [bytes([rc.C_TABLE.index(b'a')]), bytes([rc.C_TABLE.index(b'\n')]), bytes([rc.C_TABLE.index(b'_')]),
-        b'\x00A', b'\x00\xff']
+        b'\x00A', b'\x00\xff', b'\x00\x00']
 REF_LENS = (3, 4, 17)
 
 
@@ -416,6 +418,7 @@ def shards(tier, seed):
     items += [('capacity', d) for d in ((0, 1, 8) if tier == 'quick' else (-1, 0, 1, 4, 8, 9))]
     items += [('decoder', BOUNDS[tier]['decoder_depth'])]
     items += [('history', 3 if tier == 'quick' else 4)]
+    items += [('nul', k, 4) for k in range(4)]
     # every addressable offset 1..3135 from a far state: quick lengths {3, 17}, thorough all 16 lengths 2..17 -> 3..17
     items += [('far', lo, min(3136, lo + 196), tier) for lo in range(1, 3136, 196)]
     # the header's 16-bit length field: decoded lengths around 2^15 and up to 2^16-1
@@ -433,6 +436,22 @@ def run_shard(item):
     if kind == 'history':
         check_history(item[1], res)
         res.sample({'family': 'history', 'texts': HISTORY_TEXTS[:3], 'sequences': 'all of length 2..%d over 5 texts' % item[1]})
+        return res
+    if kind == 'nul':
+        # the byte 0x00 (stored as the escape pair 00 00): every string of length <= L over {a, LF, NUL} before, after
+        # and between compressible text
+        L_ = 5
+        alpha = [b'a', b'\n', b'\x00']
+        total = count_strings(L_, 3)
+        for idx in range(total):
+            if idx % item[2] != item[1]:
+                continue
+            s_ = nth_string(idx, alpha)
+            if b'\x00' not in s_:
+                continue
+            for t in (PAD + s_, s_ + PAD, PAD + s_ + PAD):
+                check_text(t, res, 'nul')
+        res.sample({'family': 'nul', 'text': PAD + b'a\x00\x00\n'})
         return res
     if kind == 'farlen':
         pre_stream, _ = far_prefix(item[1])
@@ -543,6 +562,8 @@ def replay(case):
 
 
 def classify_family(t):
+    if b'\x00' in t:
+        return 'nul'
     if t in truncation_texts():
         return 'trunc'
     if len(t) > 3000:
